@@ -230,6 +230,11 @@ void of_mod2dense_copycols     (of_mod2dense	*m,		/* Matrix to copy */
 		OF_EXIT_FUNCTION
 		return;
 	}
+#ifndef COL_ORIENTED
+	/* like of_mod2dense_copyrows() and the sparse of_mod2sparse_copycols(): the rows of r
+	 * beyond those of m are cleared rather than left with stale bits */
+	of_mod2dense_clear (r);
+#endif
 
 	for (j = 0; j < of_mod2dense_cols (r); j++)
 	{
